@@ -238,11 +238,11 @@ func runC18(res *lib.Result, tier string, seed int64, args []string) error {
 		if wi%2 == 0 {
 			// a module that exists as name.lua AND as name/init.lua (name.lua wins everywhere), and a dotted module that
 			// exists only as a directory with init.lua
-			for _, p := range []string{"zpk.lua", "zpk/init.lua", "zpd/net/init.lua"} {
+			for _, p := range []string{"zpk.lua", "zpk/init.lua", "zpd/net/init.lua", "zq-mod.lua"} {
 				t.files = append(t.files, p)
 			}
 			sort.Strings(t.files)
-			mods = append(mods, "zpk", "zpd.net")
+			mods = append(mods, "zpk", "zpd.net", "zq-mod") // … and a module whose name has a hyphen
 		}
 		if wi%4 == 1 {
 			// the canonical replay of finding K3: a native module next to a Lua module of the same name
